@@ -179,8 +179,15 @@ def run(tier, seed):
     loss_part = [p for p in plist if p[3] != ("drop",)]
     st1 = explore.explore_all("checks.c05", "scenario", sizes_part, 1, time_budget=(200 if tier == "quick" else 1500))
     st2 = explore.explore_all("checks.c05", "scenario", loss_part, 2, time_budget=(200 if tier == "quick" else 1500))
+    b3 = None
+    sts = [st1, st2]
+    if tier == "thorough":
+        sub = [p for p in loss_part if p[4] is None and p[5] is False and p[6] == "cs" and p[7] == 1][:6]
+        st3 = explore.explore_all("checks.c05", "scenario", sub, 3, time_budget=420)
+        sts.append(st3)
+        b3 = {"configurations": len(sub), "executions": st3.executions, "by_deviations": st3.by_cost, "capped_by_time_budget": st3.capped}
     seen = set()
-    for st in (st1, st2):
+    for st in sts:
         for v in st.violations:
             api, size, mtu = v["params"][0], v["params"][1], v["params"][2]
             sig = v["sig"]
@@ -197,7 +204,7 @@ def run(tier, seed):
         "rule": "states = execution-tree nodes; transitions = virtual ticks run on the real stack; outcomes = (delivered, both connected, ticks after healing)",
         "exhaustive": not (st1.capped or st2.capped),
         "samples": (st1.samples[:2] + st2.samples[:3]),
-        "horizon_s": HORIZON_S,
+        "horizon_s": HORIZON_S, "bound3_part": b3,
     }
     rep.assumptions = ["bounded liveness: delivery within %.0f virtual seconds (+ fragment count x 2 ticks) after the network healed" % HORIZON_S,
                        "<=1 loss per execution in the size sweep, <=2 deviations in the loss part; blackouts are parameters",
